@@ -31,11 +31,18 @@ impl LintPass for StackCheckPass {
                         }
 
                         if let Some((reg2, off2)) = node.uses_memory_location() {
-                            if reg2 == Register::X2 && off2.value() + off >= 0 {
-                                errors.push(LintError::InvalidStackOffsetUsage(
-                                    node.node().clone(),
-                                    off2.value() + off,
-                                ));
+                            // The stack pointer is at or below its entry position here
+                            // (off <= 0), so the sum can only leave the i32 range
+                            // downwards: far below the frame, not above it
+                            if reg2 == Register::X2 {
+                                if let Some(position) = off2.value().checked_add(*off) {
+                                    if position >= 0 {
+                                        errors.push(LintError::InvalidStackOffsetUsage(
+                                            node.node().clone(),
+                                            position,
+                                        ));
+                                    }
+                                }
                             }
                         }
                     } else {
